@@ -274,6 +274,21 @@ pub fn run(ctx: &Ctx) -> Report {
     if let Some(r) = &ctx.replay {
         let c = &r["case"];
         let c = if c.get("case").is_some() { &c["case"] } else { c };
+        if c["kind"] == "sized-short" {
+            let (size, have) = (c["size"].as_u64().unwrap_or(0) as usize, c["have"].as_u64().unwrap_or(0) as usize);
+            let cfg = Cfg::from_json(&c["cfg"]);
+            let src = rng.bytes(have, 3);
+            let add = c["add"].as_bool().unwrap_or(false);
+            let ops = if add { vec![Op::Add { name: "s".into(), size: size as u64, src }, Op::Finalize] }
+                else { vec![Op::Start("s".into()), Op::Append { id: 0, size: size as u64, src }, Op::End(0), Op::Finalize] };
+            let bl = build(&cfg, &ops);
+            rep.eval(1, true);
+            if bl.results[if add { 0 } else { 1 }] == "ok" {
+                rep.violation("oracle", "C09/short-source", json!({"what":"short-source-ok","sized":true}),
+                    &format!("a source of {have} bytes for an announced size of {size} is reported as success"), c.clone());
+            }
+            return rep;
+        }
         let ops: Vec<Op> = c["ops"].as_array().unwrap().iter().map(Op::from_json).collect();
         check_seq(&mut rep, &mut model, &ops, &Cfg::make(&mut rng, 3));
         return rep;
@@ -306,6 +321,40 @@ pub fn run(ctx: &Ctx) -> Report {
         rep.count("wide-sequence");
         check_seq(&mut rep, &mut model, &ops, &Cfg::make(&mut rng, (wi % 4) as u8));
         if rep.full() { return rep; }
+    }
+    // short sources at real sizes (oracle only: real writer): the announced size just above a size boundary of
+    // the code (cipher buffer, 64 KiB, chunk, block, repair cache, and every size-like literal found in the
+    // sources of the tree under test), the source ending just before / at / just after that boundary or one
+    // byte before the announced size — "a short source is never a success" whatever the sizes
+    if !CONSTS.scaled {
+        let mut bounds: Vec<usize> = vec![CONSTS.cbuf, 65536, CONSTS.chunk, CONSTS.block, CONSTS.rcache];
+        bounds.extend(crate::gens::extra_bounds().iter().copied().filter(|b| *b >= 1024 && *b <= (16 << 20)));
+        bounds.sort(); bounds.dedup();
+        let mut k = 0u64;
+        for b in bounds {
+            for (size, have) in [(b + 1, b), (b + 1, b - 1), (b + 5000, b), (b + 5000, b + 1), (b + 5000, b + 4999), (2 * b + 3, b + 1)] {
+                k += 1;
+                let layers = if b <= CONSTS.block && k % 3 == 0 { L_ENC | L_COMP } else { 0 };
+                let mut cfg = Cfg::make(&mut rng, layers);
+                cfg.level = 1;
+                let src = rng.bytes(have, 3);
+                let ops = if k % 2 == 0 {
+                    vec![Op::Start("s".into()), Op::Append { id: 0, size: size as u64, src }, Op::End(0), Op::Finalize]
+                } else {
+                    vec![Op::Add { name: "s".into(), size: size as u64, src }, Op::Finalize]
+                };
+                let bl = build(&cfg, &ops);
+                rep.eval(fnv(format!("sized-short:{size}:{have}:{layers}").as_bytes()), true);
+                rep.count("sized-short-source");
+                let i = if k % 2 == 0 { 1 } else { 0 };
+                if bl.results[i] == "ok" {
+                    rep.violation("oracle", "C09/short-source", json!({"what":"short-source-ok","sized":true}),
+                        &format!("a source of {have} bytes for an announced size of {size} is reported as success"),
+                        json!({"kind":"sized-short","cfg":cfg.to_json(),"size":size,"have":have,"add": k % 2 != 0}));
+                    if rep.full() { return rep; }
+                }
+            }
+        }
     }
     // exhaustive short sequences
     let maxlen = if ctx.thorough { 4 } else { 3 };
